@@ -129,6 +129,11 @@ def random_row(rnd, cmds, st):
             fe = rnd.choice(["tcp", "ws"])
             who = "subj"
             cred = rnd.choice(["valid", "valid", "truncated", "flipped"])
+            # half of the token requests travel over the very connection whose AUTH minted the token (while it is open):
+            # the answer must not depend on the connection - not even after REVOKE KEY or expiry
+            same_conn = c == "c1" and st["conn"]["c1"] and rnd.random() < 0.6
+            if same_conn:
+                fe = "tcp"
         else:
             fe = rnd.choice(["tcp", "ws", "unix", "http", "httpjson"])
             cred = "none"
@@ -138,7 +143,10 @@ def random_row(rnd, cmds, st):
             continue
         if k == "batch_store" and not (form in ("inline", "header", "none") and fe in ("tcp", "http")):
             continue
-        return {"fe": fe, "form": form, "cred": cred, "who": who, "c": c, "k": k, "t": t, "t2": t2}
+        row = {"fe": fe, "form": form, "cred": cred, "who": who, "c": c, "k": k, "t": t, "t2": t2}
+        if form == "token" and same_conn:
+            row["same_conn"] = True
+        return row
     return None
 
 
@@ -184,6 +192,20 @@ def build_life(name, beh, tables, static, rnd, *, quick, tick=False, memseed=Fal
         key = auth.state_key(st)
         life.state_keys[ck] = key
         rows = [auth.row_dict(r) for r in tables[key]]
+        # every other TCP token request of the table travels over the connection whose AUTH minted the token (while that
+        # connection is open): what a token is worth must not depend on the connection it arrives on
+        n_tok = 0
+        for r in rows:
+            if r["form"] == "token" and r["c"] == "c1" and r["fe"] == "tcp" and st["conn"]["c1"]:
+                n_tok += 1
+                if n_tok % 2 == 1:
+                    r["same_conn"] = True
+        # ... and a few of them with a valid token are sent at every checkpoint, whatever else is sampled (the interesting
+        # ones are those of a subject that has been revoked or whose token has expired)
+        must = [r for r in rows if r.get("same_conn") and r["cred"] == "valid" and ok_kind(r)][:3]
+        for r in must:
+            life.request(ck, r, "table")
+        rows = [r for r in rows if r not in must]
         kind_rows = [r for r in rows if r["cred"] == "valid" and r["who"] == "subj"
                      and (r["fe"], r["form"]) in (("tcp", "inline"), ("httpjson", "header"))]
         cred_rows = [r for r in rows if r not in kind_rows]
